@@ -46,11 +46,39 @@ def dec(fr: Fraction) -> Decimal:
     return Decimal(fr.numerator) / Decimal(fr.denominator)
 
 
+def build_special(case):
+    """Health factor EXACTLY on a threshold: unit indices and round numbers, so that collateral x LT / debt is exact in Decimal arithmetic.
+    10 WETH (LT 0.825) against 13,200 USDC: HF = 1 at WETH = 1600, just below 1 at 1599.99, just above at 1600.01."""
+    from demeter._typing import USD
+    from mc.worlds import aave
+    from mc.worlds.kit import Ctx
+
+    frames = aave.make_data(4)
+    for t in ("WETH", "USDC"):
+        frames[t] = frames[t].copy()
+        frames[t]["liquidity_index"] = Decimal(1)
+        frames[t]["variable_borrow_index"] = Decimal(1)
+    mult = {"exact-1": "0.8", "just-below-1": "0.799995", "just-above-1": "0.800005"}[case["special"]]
+    prices = aave.price_frame(4, {"WETH": [1, mult, mult, mult]})
+    m = aave.make_market(frames)
+    ad = aave.AaveAdapter(m, frames)
+    ctx = Ctx("aave", prices, USD, [ad], [(aave.WETH, 10), (aave.USDC, 0)], prices.index)
+    ctx.begin_bar(0)
+    m.supply(aave.WETH, Decimal(10), True)
+    m.borrow(aave.USDC, Decimal(13200))
+    ctx.tok = {t.name: t for t in aave.TOKENS}
+    ctx.advance()
+    return ctx
+
+
 def build_case(case):
     """Returns ctx positioned in bar 1 (shocked), or None when the target HF is unreachable by moving the chosen prices."""
     from demeter._typing import USD
     from mc.worlds import aave
     from mc.worlds.kit import Ctx
+
+    if case.get("special"):
+        return build_special(case)
 
     frames = aave.make_data(4)
     tok = {t.name: t for t in aave.TOKENS}
@@ -186,6 +214,8 @@ def judge(part, case, ctx):
     acts = [a for a in ctx.actions[n0:] if type(a).__name__ == "LiquidationAction"]
     hf0 = risk0["hf"]
     part.count(f"hf_class.{case['target']}")
+    if case.get("special") == "exact-1" and hf0 != 1:
+        raise RuntimeError(f"harness: the exact-1 case does not produce a health factor of exactly 1 ({hf0})")
     # ---- iff --------------------------------------------------------------------------------------------------
     if hf0 is not None and hf0 >= 1:
         if steps or acts:
@@ -319,6 +349,9 @@ def all_cases(run):
         if sh == "debt-up" and d != "weth":
             continue
         out.append({"coll": c, "debt": d, "extra": e, "shock": sh, "target": t, "user": u})
+    for sp in ("exact-1", "just-below-1", "just-above-1"):
+        for u in ("none", "read-views"):
+            out.append({"coll": "weth", "debt": "usdc", "extra": "none", "shock": "collateral-down", "target": sp, "user": u, "special": sp})
     return out
 
 
